@@ -940,12 +940,66 @@ def s14_s16(repo, res):
     res.analysed.update({"S14_gates": n14, "S15_raw_conversions": n15, "S16_sign_tests": n16})
 
 
+def s17(repo, res):
+    """S17 "no accepted object later fails inside a field computation with an internal error": the guards for not-yet-set attributes
+    (check_dimensions / check_excitations) are given the *flattened* source list - the second value returned by format_src_inputs -
+    so that sources inside (nested) Collections are covered, not only bare ones"""
+    fn = repo.func("magpylib._src.fields.field_wrap_BH", "getBH_level2")
+    flat = None
+    for a_ in ast.walk(fn):
+        if isinstance(a_, ast.Assign) and isinstance(a_.value, ast.Call) and call_name(a_.value) == "format_src_inputs":
+            t = a_.targets[0]
+            if isinstance(t, ast.Tuple) and len(t.elts) == 2 and isinstance(t.elts[1], ast.Name):
+                flat = t.elts[1].id
+    res.require(flat is not None, "anchor vanished: `sources, src_list = format_src_inputs(sources)` in getBH_level2")
+    n = 0
+    for c in ast.walk(fn):
+        if isinstance(c, ast.Call) and call_name(c) in ("check_dimensions", "check_excitations"):
+            n += 1
+            ok = bool(c.args) and isinstance(c.args[0], ast.Name) and c.args[0].id == flat
+            res.ob(f"S17:{norm(c)}", ok, {"rule": "S17", "guard": norm(c), "flattened_list": flat})
+            if not ok:
+                res.add(Finding("S17", "magpylib/_src/fields/field_wrap_BH.py", "getBH_level2", c, f"the not-yet-set guard is given `{norm(c.args[0]) if c.args else ''}`, not the "
+                                f"flattened list `{flat}`: a source with a None dimension/excitation inside a Collection passes and the computation dies with an internal "
+                                "AttributeError instead of the library's missing-input error", c.lineno))
+    res.require(n >= 2, "anchor vanished: check_dimensions / check_excitations calls in getBH_level2")
+
+
+def s18(repo, res):
+    """S18 pose paths have rank 2 whatever the rank of the accepted input: the orientation validator's constructor/setter format is
+    `reshape(<quaternions>, (-1, 4))` (a Rotation may be built from arrays of any rank; `atleast_2d` only lifts rank 1), and the position
+    validators are configured with reshape=(-1, 3)"""
+    from repo import ret_value
+    fn = repo.func(IC, "check_format_input_orientation")
+    rets = [ret_value(fn, r) for r in ast.walk(fn) if isinstance(r, ast.Return) and r.value is not None]
+    arr_rets = [v for v in rets if not isinstance(v, ast.Tuple)]
+    res.require(arr_rets, "anchor vanished: array-format return of check_format_input_orientation")
+    for v in arr_rets:
+        ok = isinstance(v, ast.Call) and call_name(v) == "reshape" and any(
+            isinstance(a, ast.Tuple) and len(a.elts) == 2 and ast.unparse(a.elts[0]) == "-1" and ast.unparse(a.elts[1]) == "4" for a in list(v.args) + [k.value for k in v.keywords])
+        res.ob(f"S18:{norm(v)}", ok, {"rule": "S18", "returned": norm(v)})
+        if not ok:
+            res.add(Finding("S18", repo.mod(IC).rel, "check_format_input_orientation", v, "the quaternion array returned for constructor and setter is not forced to shape (-1, 4): "
+                            "a Rotation built from a rank-3 array is accepted and stored with a wrong path length, and a later field computation fails internally", v.lineno))
+    n = 0
+    for m, q, f2, cl in repo.all_functions():
+        for c in ast.walk(f2):
+            if isinstance(c, ast.Call) and call_name(c) == "check_format_input_vector" and lit(kw(c, "sig_name")) == "position":
+                n += 1
+                rs = kw(c, "reshape")
+                ok = rs is not None and ast.unparse(rs).replace(" ", "") == "(-1,3)"
+                res.ob(f"S18:{q}:position reshape", ok, {"rule": "S18", "site": q, "reshape": ast.unparse(rs) if rs is not None else None})
+                if not ok:
+                    res.add(Finding("S18", m.rel, q, c, "the position validator is not configured with reshape=(-1, 3): a single position is stored with rank 1", c.lineno))
+    res.require(n >= 2, "S18: position validator call sites vanished")
+
+
 def run(repo, res, tier):
     res.rules = ["S1 validate-before-store", "S2 independent copy", "S3 documented shape vs configuration", "S4 constraints consulted on accepting paths",
                  "S5 None-flow", "S6 constructor = setter", "S8 relational constraints", "S9 rank/type gates",
                  "S10 a membership-validated setter stores the value it tested",
                  "S11 validated value stored verbatim", "S12 total exception translation", "S13 field_func probe adequacy", "S14 scalar gates admit every real number type",
-                 "S15 raw user values reach NumPy only inside a translating try", "S16 sign constraints tested elementwise"]
+                 "S15 raw user values reach NumPy only inside a translating try", "S16 sign constraints tested elementwise", "S17 not-yet-set guards see the flattened source list", "S18 pose paths forced to rank 2"]
     s1_s6(repo, res)
     s3(repo, res)
     s3b(repo, res)
@@ -957,6 +1011,8 @@ def run(repo, res, tier):
     s12(repo, res)
     s13(repo, res)
     s14_s16(repo, res)
+    s17(repo, res)
+    s18(repo, res)
     import rules_domain
     n10 = rules_domain.checked_is_stored(repo, res, "S10")
     res.require(n10 >= 12, f"S10: only {n10} membership-validated setters found (16 confirmed by hand)")
